@@ -649,5 +649,5 @@ def run(tier: str) -> int:
     rep.assumptions = ["a schema is what the documentation shows; chained variants special-cased by the code are not demanded",
                        "power folding (k1 ^ k2) is not part of the constant-arithmetic schema table"]
     random.Random(seed()).shuffle(items)
-    collect(rep, pmap(worker, items, budget_s=420 if tier == "quick" else 3000, chunk=16))
+    collect(rep, pmap(worker, items, budget_s=420 if tier == "quick" else 720, chunk=16))
     return rep.finish(required_reach=sorted({c.rule for c in CASES}))
